@@ -15,7 +15,6 @@ TECHNIQUE = "static analysis: single-source provenance (cut-point origins) for q
 LEVEL_TEXT = "Structural obligations over all paths of Simulation, SimulateSwapOperations, Swap, ExecuteSwapOperations and every query variant."
 LEVEL_NOTE = "Not decided: the reverse quote bound."
 PM = "pool_manager"
-C = sc.C
 FLOORS = {"AGREE-simulation": 8, "T-query-pure": 15}
 
 
@@ -25,19 +24,23 @@ def run(W, chk):
     # execution books exactly the quoted values (shared with C04)
     sc.swap_conservation(W, chk, ("Swap",), r"^info\.funds\[\*\]\.amount$", {"info.sender", "msg.Swap.receiver"}, "msg.Swap.ask_asset_denom", "Swap")
     # ---- simulated route
-    pol = CutPolicy([], opaque=[sc.CS])
+    sc.N.bind(W)
+    C = sc.N.C
+    pol = CutPolicy([], opaque=[sc.N.CS])
     Q = W.run(PM, "query", ("SimulateSwapOperations",), pol)
     O = "msg.SimulateSwapOperations"
-    qs = Q.calls_id(r"queries::query_simulation$")
-    chk.expect(len(qs) == 1, "AGREE-route", "simulate.anchor", "hops go through query_simulation", "%d query_simulation call sites" % len(qs), Q.entry)
-    for e in qs:
-        da = e.extra["dargs"]
-        am = opmap(vfield(da[1], "amount"))
+    qs = sc.hop_offers(Q)
+    chk.expect(len(qs) == 1, "AGREE-route", "simulate.anchor", "one swap computation per simulated hop", "%d swap computation sites" % len(qs), Q.entry)
+    for (e, am, da) in qs:
+        keys = set()
+        for r_ in Q.reads():
+            if r_.extra.get("item") == "POOLS":
+                keys |= all_origins(r_.extra.get("key", EMPTY))
         ok = am == {O + ".offer_amount": frozenset(), C + ".return_amount": frozenset()} and \
             exact_origins(vfield(da[1], "denom")) == {O + ".operations[*].MantraSwap.token_in_denom"} and \
-            exact_origins(da[2]) == {O + ".operations[*].MantraSwap.token_out_denom"} and exact_origins(da[3]) == {O + ".operations[*].MantraSwap.pool_identifier"}
+            exact_origins(da[2]) == {O + ".operations[*].MantraSwap.token_out_denom"} and keys == {O + ".operations[*].MantraSwap.pool_identifier"}
         chk.expect(ok, "AGREE-route", "simulate.hop", "hop(offer = initial amount or previous return, token_in -> token_out, pool_identifier)",
-                   "simulated hop is fed %s / %s / %s" % ({k: sorted(v) for k, v in am.items()}, sorted(all_origins(da[2])), sorted(all_origins(da[3]))), where(e))
+                   "simulated hop is fed %s / %s / pools %s" % ({k: sorted(v) for k, v in am.items()}, sorted(all_origins(da[2])), sorted(keys)), where(e))
     r = Q.ret if Q.ret is not None else EMPTY
     ra = opmap(vfield(r, "return_amount"))
     chk.expect(ra == {O + ".offer_amount": frozenset(), C + ".return_amount": frozenset()}, "AGREE-route", "simulate.result",
@@ -45,14 +48,15 @@ def run(W, chk):
     # ---- executed route
     X = W.run(PM, "execute", ("ExecuteSwapOperations",), pol)
     E = "msg.ExecuteSwapOperations"
-    for e in X.calls_id(r"swap::perform_swap::perform_swap$"):
-        da = e.extra["dargs"]
-        am = opmap(vfield(da[1], "amount"))
+    for (e, am, da) in sc.hop_offers(X):
+        keys = set()
+        for r_ in X.reads():
+            if r_.extra.get("item") == "POOLS":
+                keys |= all_origins(r_.extra.get("key", EMPTY))
         ok = am == {"info.funds[*].amount": frozenset(), C + ".return_amount": frozenset()} and \
-            exact_origins(da[2]) == {E + ".operations[*].MantraSwap.token_out_denom"} and exact_origins(da[3]) == {E + ".operations[*].MantraSwap.pool_identifier"}
+            exact_origins(da[2]) == {E + ".operations[*].MantraSwap.token_out_denom"} and keys == {E + ".operations[*].MantraSwap.pool_identifier"}
         chk.expect(ok, "AGREE-route", "execute.hop", "hop(offer = paid amount or previous return_asset, -> token_out, pool_identifier)",
-                   "executed hop is fed %s / %s / %s" % ({k: sorted(v) for k, v in am.items()}, sorted(all_origins(da[2])), sorted(all_origins(da[3]))), where(e))
-        chk.expect(exact_origins(da[4]) == set() and "None" in show(da[4]), "AGREE-route", "execute.belief", "router hops use no belief price", "belief price %s" % show(da[4]), where(e))
+                   "executed hop is fed %s / %s / pools %s" % ({k: sorted(v) for k, v in am.items()}, sorted(all_origins(da[2])), sorted(keys)), where(e))
     mp = X.calls(r"cw_utils::must_pay$")
     chk.expect(len(mp) == 1 and exact_origins(mp[0].extra["dargs"][1]) == {E + ".operations[*].MantraSwap.token_in_denom"}, "AGREE-route", "execute.offer",
                "the paid-in coin must be the first operation's input denom", "must_pay denom %s" % [sorted(all_origins(x.extra["dargs"][1])) for x in mp], X.entry)
